@@ -33,10 +33,14 @@ ASSUMPTIONS = ['records are written and parsed through fixed_format_file.write_v
                'reference value of a printed real is ref/fortnum.parse_real (exact decimal -> nearest double)']
 BOUNDS = {'quick': {'exponents': 'boundary set of 25 decimal exponents in -120..120', 'none_pairs': 'one value',
                     'crossed': 'every pair of fields of every record kind x reduced boundary alphabet (4-12 values per field)',
-                    'sequences': 'one parser object: every ordered pair of record kinds of a table'},
+                    'sequences': 'one parser object: every ordered pair of record kinds of a table',
+                    'short_lists': 'records given as their first n values, every n; first record of a fresh parser of length n1 (all n1 for kinds of <= 6 fields, else 1, 2, F/2, F-1, F) then every length ascending / descending',
+                    'primed_readers': 'Fortran-read parsers of the four tables after direct fortran_float / fortran_int calls with three other blank values, and back'},
           'thorough': {'exponents': 'all 241 decimal exponents -120..120', 'none_pairs': 'three values',
                        'crossed': 'every pair of fields x wider boundary alphabet; every three adjacent fields x reduced alphabet',
-                       'sequences': 'every ordered pair of record kinds, first record plain and over-wide; every ordered triple whose last two kinds have equally many fields'}}
+                       'sequences': 'every ordered pair of record kinds, first record plain and over-wide; every ordered triple whose last two kinds have equally many fields',
+                       'short_lists': 'as quick with every first length n1',
+                       'primed_readers': 'as quick'}}
 
 MANT = [1.0, 1.5, 5.0, 9.5, 1.2345678901234567, 9.999999999999999]
 QUICK_EXP = [-120, -101, -100, -99, -98, -38, -10, -9, -5, -4, -3, -2, -1, 0, 1, 2, 3, 4, 5, 9, 10, 38, 99, 100, 120]
@@ -129,6 +133,8 @@ def units(tier):
             us.append(('pairs', tname, rec_kind))
     for tname in tables():
         us.append(('sequences', tname))
+        us.append(('short-lists', tname))
+    us.append(('primed-readers',))
     us.append(('dict-path',))
     us.append(('two-parsers',))
     us.append(('containers-and-files',))
@@ -774,7 +780,137 @@ def sequences_unit(unit, tier, rec):
     rec.count('sequence_cases', n)
 
 
+def fresh_parser(tname):
+    return tables()[tname]
+
+
+def judge_short(parser, tname, rec_kind, n, hist):
+    """A record given as a list of only its first n values: fields 0..n-1 must read back their values, the rest
+    absent.  The line may end after field n-1 or be padded to the full record width."""
+    names, fmts = parser.specification[rec_kind]
+    cols, width = ref_columns(fmts)
+    vals = [sentinel(*split_fmt(f)[:2], pos=j) for j, f in enumerate(fmts)][:n]
+    base = 'C02|%s|%s|first-%s-of-%d-values|short-list|%s' % (tname, rec_kind, 'all' if n == len(fmts) else ('1' if n == 1 else 'some'), len(fmts), hist[0])
+    try:
+        s = parser.write_values_to_string(list(vals), rec_kind)
+        back = parser.parse_string(s, rec_kind)
+    except core.CaseTimeout:
+        raise
+    except Exception as e:
+        return [(base + '|raises', '%d values %r: %r' % (n, vals, e))]
+    if len(s) not in (cols[n - 1][1], width):
+        return [(base + '|record-width', 'record of the first %d values is %d columns wide (fields end at %d, record at %d): %r'
+                 % (n, len(s), cols[n - 1][1], width, s))]
+    for j, f in enumerate(fmts):
+        tj = f[-1]
+        got = back[j] if j < len(back) else None
+        if tj == 'x' or j >= n:
+            ok = got is None or (isinstance(got, str) and got.strip() == '')
+        else:
+            ok = got == expected_sentinel(tj, f, vals[j])
+        if not ok:
+            return [(base + ('|value-lost' if j < n else '|absent-not-absent'),
+                     'record written from its first %d values %s: field %d (%s) reads back %r, line %r' % (n, hist[1], j, f, got, s))]
+    return []
+
+
+def short_lists_unit(unit, tier, rec):
+    """Records given as a list SHORTER than the record kind (the library does this for generator rows, short
+    initial-condition rows, the MULgraph header): every length 1..F; and the history of one parser object - for
+    every first length n1 a fresh parser writes n1 values and then every length in ascending order, and another
+    one in descending order - so a layout remembered from the first record of a kind cannot hide."""
+    _, tname = unit
+    spec = tables()[tname].specification
+    n = 0
+    for rec_kind, (names, fmts) in spec.items():
+        F = len(fmts)
+        firsts = range(1, F + 1) if (tier == 'thorough' or F <= 6) else sorted({1, 2, F // 2, F - 1, F})
+        for n1 in firsts:
+            for order in ('ascending', 'descending'):
+                parser = fresh_parser(tname)
+                for sig, what in judge_short(parser, tname, rec_kind, n1, ('first-record', 'as the first record of the parser')):
+                    rec.violation(sig, what, {'short': tname, 'record': rec_kind, 'first': n1, 'order': order})
+                lens = range(1, F + 1) if order == 'ascending' else range(F, 0, -1)
+                for n2 in lens:
+                    for sig, what in judge_short(parser, tname, rec_kind, n2,
+                                                 ('after-%s-record' % ('shorter' if n1 < n2 else 'longer' if n1 > n2 else 'equal'),
+                                                  'after a first record of %d values (%s lengths since)' % (n1, order))):
+                        rec.violation(sig, what, {'short': tname, 'record': rec_kind, 'first': n1, 'order': order})
+                    n += 1
+                    rec.case((tname, rec_kind, 'short', n1, order, n2), outcome='short-list')
+    rec.count('short_list_cases', n)
+
+
+def primed_readers_unit(rec):
+    """The module-level Fortran readers are shared by every caller (t2listing calls fortran_float with blank value
+    0.0, the parsers with None, users with anything).  After those functions were called directly on blank and
+    non-blank field texts of every width with OTHER blank values, a record with an absent field must still parse
+    back as absent and a written value as itself, through parsers with the Fortran read function; and the other
+    way round, after the parsers, the direct calls still give their own blank value."""
+    import fixed_format_file as fff
+    import t2data, t2incons, mulgrids
+    null = os.path.join(core.scratch(), 'c02p.tmp')
+    specs = {'t2data': t2data.t2data_format_specification,
+             't2data_xp': t2data.t2data_extra_precision_format_specification,
+             't2incon': t2incons.t2incon_format_specification,
+             'mulgrid': mulgrids.mulgrid_format_specification}
+    n = 0
+
+    def prime(blank_f, blank_i):
+        for w in range(0, 31):
+            for text in (' ' * w, '1.5D+02'.rjust(w), '12'.rjust(w), ('1 2').rjust(w), '*' * w):
+                try:
+                    fff.fortran_float(text, blank_f) if blank_f != 'default' else fff.fortran_float(text)
+                    fff.fortran_int(text, blank_i) if blank_i != 'default' else fff.fortran_int(text)
+                except Exception:
+                    pass
+
+    def judge(primer):
+        m = 0
+        for tname, spec in specs.items():
+            q = fff.fixed_format_file(null, 'w', spec, fff.fortran_read_function)
+            q.file.close()
+            for kind, (names, fmts) in q.specification.items():
+                cols, width = ref_columns(fmts)
+                for absent in [None] + [j for j, f in enumerate(fmts) if f[-1] != 'x']:
+                    viol, oc = eval_multi_case(q, tname, kind, names, fmts, cols, width, {} if absent is None else {absent: None})
+                    m += 1
+                    for sig, what in viol:
+                        rec.violation(sig.replace('|crossed', '|fortran-parser-after-direct-reader-calls'),
+                                      what + ' (after direct calls of fortran_float / fortran_int with blank values %s)' % (primer,),
+                                      {'primed': list(primer)})
+                # the all-blank record
+                back = q.parse_string(' ' * width, kind)
+                m += 1
+                bad = [(j, v) for j, v in enumerate(back) if not (v is None or (isinstance(v, str) and v.strip() == ''))]
+                if bad:
+                    rec.violation('C02|%s|%s|%d:%s|%s|blank-record-not-absent|fortran-parser-after-direct-reader-calls'
+                                  % (tname, kind, bad[0][0], names[bad[0][0]] if bad[0][0] < len(names) else '?', fmts[bad[0][0]]),
+                                  'blank record parses as %r after direct reader calls with blank values %s' % (bad[:3], primer),
+                                  {'primed': list(primer)})
+        return m
+
+    for primer in (('default', 'default'), (-1.0, -1), (None, None), ('default', 'default')):
+        prime(*primer)
+        n += judge(primer)
+        rec.case(('primed', repr(primer), n), outcome='primed-readers')
+        # and back: the direct calls keep their own blank values after the parsers ran
+        for w in (0, 1, 5, 10, 15, 20):
+            for bf, bi in ((0.0, 0), (-1.0, -1), (None, None)):
+                gf, gi = fff.fortran_float(' ' * w, bf), fff.fortran_int(' ' * w, bi)
+                n += 1
+                if not (gf == bf and type(gf) == type(bf) and gi == bi and type(gi) == type(bi)):
+                    rec.violation('C02|fortran_float/fortran_int|blank-value-of-another-caller|width-%d' % w,
+                                  'blank field of width %d with blank values (%r, %r) gives (%r, %r) after parsers and other callers used the readers'
+                                  % (w, bf, bi, gf, gi), {'primed': list(primer)})
+    rec.count('primed_reader_cases', n)
+
+
 def run_unit(unit, tier, rec):
+    if unit[0] == 'short-lists':
+        return short_lists_unit(unit, tier, rec)
+    if unit[0] == 'primed-readers':
+        return primed_readers_unit(rec)
     if unit[0] == 'sequences':
         return sequences_unit(unit, tier, rec)
     if unit[0] == 'pairs':
@@ -861,6 +997,14 @@ def replay(case):
     if 'containers' in case or 'file_route' in case:
         r = core.Rec()
         containers_and_files_unit(r, 'quick')
+        return [(sig, e['what']) for sig, e in r.viol.items()]
+    if 'short' in case:
+        r = core.Rec()
+        short_lists_unit(('short-lists', case['short']), 'thorough', r)
+        return [(sig, e['what']) for sig, e in r.viol.items()]
+    if 'primed' in case:
+        r = core.Rec()
+        primed_readers_unit(r)
         return [(sig, e['what']) for sig, e in r.viol.items()]
     if 'sequence' in case:
         r = core.Rec()
